@@ -399,8 +399,14 @@ func (a *TCPAllocation) Addr() net.Addr {
 // HandleConnectionAttempt is called by the TURN client
 // when it receives a ConnectionAttempt indication.
 func (a *TCPAllocation) HandleConnectionAttempt(from *net.TCPAddr, cid proto.ConnectionID) {
-	a.connAttemptCh <- &connectionAttempt{
+	// Never block the client's inbound path: when nobody accepts, drop the attempt
+	// (the server closes the peer connection after its bind timeout).
+	select {
+	case a.connAttemptCh <- &connectionAttempt{
 		from: from,
 		cid:  cid,
+	}:
+	default:
+		a.log.Warnf("Dropping connection attempt from %s (cid=%v): accept queue is full", from, cid)
 	}
 }
